@@ -30,7 +30,10 @@ from hpstatic.loader import AnalysisError
 from hpstatic.poly import Canon
 from hpstatic.terms import (sym, intern, show, subterms, calls_in, TRUE, FALSE,
                             NONE, atoms_of, kw, num)
-from .common import final_self, init_of
+from .common import final_self, init_of, lt_form, path_has, norm_cond
+from hpstatic.logic import cmp_is
+
+MUTATION_TARGETS = {'holopy/core/prior.py': ['__add__', '__mul__', '__radd__', '__sub__', '__rsub__', '__rmul__', '__truediv__', '__rtruediv__', '__neg__', '__pow__', '__rpow__', 'scale', 'unscale', 'lnprob', 'prob', 'sample', 'guess', 'interval', '__init__', 'variance']}
 
 LEVEL = 'other'
 META = dict(
@@ -651,15 +654,14 @@ def r7_constructors(check, prog, canon):
     # Uniform: lower >= upper
     res, rs, loc = raising_conds('Uniform')
     l, u = sym('lower_bound'), sym('upper_bound')
-    ok = any(c is not None and c[1] and (
-        c[0] == ('cmp', '>=', l, u) or c[0] == ('cmp', '<=', u, l)) for o, c in rs)
+    ok = any(c is not None and c[1] and cmp_is(c[0], '>=', l, u) for o, c in rs)
     check.require(ok, 'R7-constructor-rejects', 'Uniform(lower >= upper)',
                   'raises when lower_bound >= upper_bound', loc,
                   fail_detail='raising conditions: %s' % [
                       show(c[0]) for o, c in rs if c])
     res, rs, loc = raising_conds('Gaussian')
     sd = sym('sd')
-    ok = any(c is not None and c[1] and c[0] == ('cmp', '<=', sd, num(0)) for o, c in rs)
+    ok = any(c is not None and c[1] and cmp_is(c[0], '<=', sd, num(0)) for o, c in rs)
     check.require(ok, 'R7-constructor-rejects', 'Gaussian(sd <= 0)',
                   'raises when sd <= 0', loc,
                   fail_detail='raising conditions: %s' % [show(c[0]) for o, c in rs if c])
@@ -674,10 +676,10 @@ def r7_constructors(check, prog, canon):
         atoms = set()
         for itm in items:
             if itm[0] == 'atom' and itm[1][0] == 'cmp':
-                atoms.add((itm[1][1], itm[1][2], itm[1][3]))
-        need = {('<', mu, l), ('>', mu, u)}
-        if need <= atoms and (('==', l, u) in atoms or ('==', u, l) in atoms
-                              or ('>=', l, u) in atoms):
+                atoms.add(lt_form(itm[1]))
+        need = {('<', mu, l), ('<', u, mu)}
+        if need <= atoms and (lt_form(('cmp', '==', l, u)) in atoms
+                              or ('<=', u, l) in atoms):
             ok = True
     check.require(ok, 'R7-constructor-rejects', 'BoundedGaussian(mu outside / empty)',
                   'raises when mu < lower, mu > upper or lower == upper', loc,
